@@ -50,13 +50,19 @@ def _run_bin(binary, models, prop, seed, cases, max_len, out, extra=()):
     return rc, time.time() - t0
 
 
-def generate(plan, seed, count, tier, wave, extra_specs=None, crates=16):
+# properties whose batches also contain the repository's own test grammars (lifted to models)
+WITH_REPO_GRAMMARS = {"C01", "C02", "C04", "C08", "C09", "C10", "C19", "C20"}
+
+
+def generate(plan, seed, count, tier, wave, extra_specs=None, crates=16, repo_grammars=False):
     out = os.path.join(ws.WS, "batch", plan)
     os.makedirs(out, exist_ok=True)
     env = dict(os.environ)
     env["VERIF_REPO_PATH"] = ws.REPO
     cmd = [ws.tool("genner"), "gen", "--plan", plan, "--seed", str(seed), "--count", str(count), "--out", out,
            "--tier", tier, "--wave", str(wave), "--crates", str(crates)]
+    if repo_grammars:
+        cmd += ["--repo-grammars", os.path.join(ws.REPO, "test", "src")]
     if extra_specs:
         ef = os.path.join(ws.WORK, "extra_%s.json" % plan)
         with open(ef, "w") as f:
